@@ -474,7 +474,12 @@ pub fn generate(rng: &mut Rng, focus: &str, thorough: bool) -> Case {
             Some(true)
         };
         let demand = if engine_on == Some(false) {
-            if rng.chance(0.85) { Demand::Zero } else { Demand::MaxTimes(r3(rng.range(0.05, 0.5))) }
+            // engine off: coasting, dynamic braking (accepted by the code: no fuel, no aux), or traction (must be refused)
+            match rng.below(20) {
+                0..=11 => Demand::Zero,
+                12..=16 => Demand::BrakeTimes(*rng.pick(&[1.0, 0.5, 0.1, 0.9, 0.02])),
+                _ => Demand::MaxTimes(r3(rng.range(0.05, 0.5))),
+            }
         } else if rng.chance(p_reject) {
             // over-limit requests: must be rejected
             match rng.below(3) {
